@@ -300,7 +300,8 @@ class RefDeser:
                     return None
                 alts = [s.a[0], P_NONE]
             else:
-                alts = list(s.a)
+                # documented: unsupported members of a union are ignored
+                alts = [a for a in s.a if a.k != "unsup"]
             if "union_bytype_int" in self.relax and kd == "int":
                 # known finding: dispatch by type(data) has no `int` entry for a float
                 # alternative when all alternatives have distinct JSON classes
@@ -394,6 +395,26 @@ class RefDeser:
             return None
         if k == "obj":
             return self.de_obj(s, d, loc, cs, errs)
+        if k == "disc":
+            # documented (json_schema.md, OpenAPI discriminator): an object carrying the
+            # discriminator property, whose value selects the alternative; the property itself
+            # belongs to the alternative only when it declares a field under that name
+            if kd != "dict":
+                errs.append((loc, "type"))
+                return None
+            alias = self.opts.aliaser(s.opt("alias"))
+            if alias not in d:
+                errs.append((loc + (alias,), "missing"))
+                return None
+            by_key = dict(s.opt("mapping"))
+            key = d[alias]
+            if jkind(key) != "str" or key not in by_key:
+                errs.append((loc + (alias,), "oneOf"))
+                return None
+            alt = next(a for a in map(self.deref, s.a) if a.opt("name") == by_key[key])
+            has_field = any(self.ext(alt, f) == alias for f in self.obj_fields(alt))
+            d2 = d if has_field else {k2: v for k2, v in d.items() if k2 != alias}
+            return self.de_obj(alt, d2, loc, cs, errs)
         raise ValueError(k)
 
     def de_obj(self, s: Sp, d, loc, cs, errs):
